@@ -76,7 +76,7 @@ def run_check(prop_id, tier, seed):
         names, n_examples = common.theorems_in(prop_id)
     except OSError as e:
         broken.append(dict(kind='proof-break', theorem='Props/%s.lean' % prop_id, detail=str(e)))
-    hits = common.grep_audit()
+    hits = common.grep_audit(prop_id, [prop_id] + list(getattr(mod, 'DRIVERS', [])))
     if hits:
         broken.append(dict(kind='proof-break', theorem='audit: banned token', detail='\n'.join(hits[:10])))
     discharged = 0
